@@ -75,7 +75,22 @@ pub fn addr(args: &[&str]) -> Option<Vec<String>> {
         ),
         Err(e) => err_kind(e),
     };
+    // the other constructors that take the whole string must say the same as `FromStr`
+    let show = |r: Result<Address, lettre::address::AddressError>| match r {
+        Ok(a) => format!("ok:{}:{}:{}", hex(a.user().as_bytes()), hex(a.domain().as_bytes()), hex(a.to_string().as_bytes())),
+        Err(e) => err_kind(e),
+    };
+    let tf = show(Address::try_from(s.clone()));
     let doms: Vec<&str> = domain_of(&s).into_iter().collect();
+    if tf != res {
+        return Some(vec![format!("ctor-differs:try_from-string:{tf}"), env_for(&[&s], &doms)]);
+    }
+    if let Ok(js) = serde_json::to_string(&s) {
+        let de = serde_json::from_str::<Address>(&js).is_ok();
+        if de != res.starts_with("ok") {
+            return Some(vec![format!("ctor-differs:deserialize:{de}"), env_for(&[&s], &doms)]);
+        }
+    }
     Some(vec![res, env_for(&[&s], &doms)])
 }
 
